@@ -1,10 +1,12 @@
 #!/bin/sh
-# runs every registered quick (or $1=thorough) check and prints one line each
+# runs every registered quick (or $1=thorough) check and prints one line each; $2 = per-check timeout in seconds
 tier=${1:-quick}
-for id in $(python3 -c "import json; print(' '.join(c['property_id'] for c in json.load(open('/verif/MANIFEST.json'))['checks']))"); do
+lim=${2:-3600}
+ids=${3:-$(python3 -c "import json; print(' '.join(c['property_id'] for c in json.load(open('/verif/MANIFEST.json'))['checks']))")}
+for id in $ids; do
   start=$(date +%s)
-  /verif/bin/gosym check $id --tier $tier > /tmp/runall_$id.log 2>&1
+  timeout $lim /verif/bin/gosym check $id --tier $tier > /tmp/runall_${tier}_$id.log 2>&1
   code=$?
   end=$(date +%s)
-  echo "$id exit=$code $((end-start))s $(grep -c '^VIOLATION' /tmp/runall_$id.log) violations; $(tail -1 /tmp/runall_$id.log | cut -c1-150)"
+  echo "$id exit=$code $((end-start))s $(grep -c '^VIOLATION' /tmp/runall_${tier}_$id.log) violations; $(tail -1 /tmp/runall_${tier}_$id.log | cut -c1-150)"
 done
